@@ -4,10 +4,14 @@ package main
 
 import (
 	"github.com/newrelic/newrelic-php-agent/daemon/internal/newrelic"
+	"github.com/newrelic/newrelic-php-agent/daemon/internal/newrelic/collector"
 )
 
 func lookup(engine string) func([]string) string {
 	if f, ok := newrelic.VerifEngines[engine]; ok {
+		return f
+	}
+	if f, ok := collector.VerifEngines[engine]; ok {
 		return f
 	}
 	return nil
